@@ -65,6 +65,26 @@ def shape_to_nodes(n, shape, devs, t="plain"):
     return nodes
 
 
+def _can_add_dependency(nodes, i, j):
+    """dr.add_dependency(i, j) is defined when i was declared with an at-least-one group (it extends the first one),
+    j is not yet a dependency of i, and the new edge keeps the graph acyclic (i not reachable from j)."""
+    from harness.graphs import all_deps
+    if not any(isinstance(it, list) for it in nodes[i].get("decl", [])):
+        return False
+    if j in all_deps(nodes[i]):
+        return False
+    seen, stack = set(), [j]
+    while stack:
+        x = stack.pop()
+        if x == i:
+            return False
+        if x in seen:
+            continue
+        seen.add(x)
+        stack.extend(all_deps(nodes[x]))
+    return True
+
+
 def targets_for(n, tier):
     ts = [["node", i] for i in range(n)]
     ts += [["pair", i, j] for i in range(n) for j in range(i + 1, n)]
@@ -72,6 +92,10 @@ def targets_for(n, tier):
     # graphs that are NOT dependency-closed (hand-written dicts, group filters, popped nodes): only the keys take part
     if n == 3:
         ts += [["subdict", list(m)] for k in (1, 2) for m in itertools.combinations(range(n), k)]
+        # two-step histories in one process (no deviations): partial incremental evaluation then a full one;
+        # evaluate / dr.add_dependency / evaluate again (the pair is filtered per shape in run_unit)
+        ts += [["incr-subdict-then-full", list(m)] for k in (1, 2) for m in itertools.combinations(range(n), k)]
+        ts += [["run-adddep-run", i, j] for i in range(n) for j in range(n) if i != j]
     if n == 4:
         ts = [["node", 3], ["dict"], ["pair", 2, 3]]
     return ts
@@ -105,6 +129,7 @@ def check_case(case, res=None):
     prefixes = set()
     orders = set()
     turns_total = 0
+    registry_changes = []
     for perm in perms:
         g = G.Graph(desc, hashes=perm, name_order=list(range(n)))
         try:
@@ -118,10 +143,13 @@ def check_case(case, res=None):
             elif tgt[0] == "dict":
                 comps = g.explicit_graph()
                 tix = list(range(n))
-            elif tgt[0] == "subdict":
+            elif tgt[0] in ("subdict", "incr-subdict-then-full"):
                 full = g.explicit_graph()
                 comps = dict((g.nodes[i], full[g.nodes[i]]) for i in tgt[1])
                 tix = None
+            elif tgt[0] == "run-adddep-run":
+                comps = g.explicit_graph()
+                tix = list(range(n))
             else:
                 comps = G.TYPES[desc["nodes"][0]["t"]]
                 tix = list(range(n))
@@ -139,54 +167,100 @@ def check_case(case, res=None):
                 order = dr.run_order(dg)
                 if sorted(c.idx for c in order) != sorted(in_graph):
                     vio.append(("order:permutation-of-graph", sorted(in_graph), [c.idx for c in order], perm))
-            broker = g.make_broker()
-            seeds = dict((i, broker[g.nodes[i]]) for i in range(n) if desc["nodes"][i].get("seed"))
-            try:
-                dr.run(comps, broker)
-            except Exception as ex:
-                vio.append(("run:raises", "dr.run returns", repr(ex), perm))
-                continue
-            log = g.log
-            attempts = [ev[1] for ev in log if ev[0] == "attempt"]
-            invokes = [ev[1] for ev in log if ev[0] == "invoke"]
-            turns = [ev[1] for ev in log if ev[0] == "turn"]
-            turns_total += len(turns)
-            orders.add(tuple(turns))
-            for k in range(1, len(turns) + 1):
-                prefixes.add(tuple(turns[:k]))
-            # (1) at most once
-            for i in range(n):
-                if attempts.count(i) > 1:
-                    vio.append(("once:attempted-at-most-once", {"node": i, "attempts": "<=1"}, {"node": i, "attempts": attempts.count(i)}, perm))
-                if invokes.count(i) > 1:
-                    vio.append(("once:invoked-at-most-once", {"node": i, "invocations": "<=1"}, {"node": i, "invocations": invokes.count(i)}, perm))
-                if i in in_graph and turns.count(i) != 1:
-                    vio.append(("once:one-turn-per-component", {"node": i, "turns": 1}, {"node": i, "turns": turns.count(i)}, perm))
-                if i not in in_graph and (attempts.count(i) or invokes.count(i)):
-                    vio.append(("closure:foreign-component-run", {"node": i, "attempts": 0}, {"node": i, "attempts": attempts.count(i)}, perm))
-            # (2) every dependency in the evaluation had its turn before the dependent is attempted
-            pos = {}
-            for k, ev in enumerate(log):
-                if ev[0] == "turn" and ev[1] not in pos:
-                    pos[ev[1]] = k
-            for k, ev in enumerate(log):
-                if ev[0] == "attempt":
-                    for d in G.all_deps(desc["nodes"][ev[1]]):
-                        if d in in_graph and not (d in pos and pos[d] < k):
-                            vio.append(("order:dependency-attempted-first", {"node": ev[1], "dep": d, "dep_turn_before": True},
-                                        {"log": [list(e[:2]) for e in log if e[0] in ("attempt", "turn")]}, perm))
-            # (3) seeds
-            for i, sv in seeds.items():
-                c = g.nodes[i]
-                if invokes.count(i) or attempts.count(i):
-                    vio.append(("seed:not-recomputed", {"node": i, "invocations": 0}, {"node": i, "invocations": invokes.count(i), "attempts": attempts.count(i)}, perm))
-                if c not in broker or broker[c] is not sv:
-                    vio.append(("seed:not-overwritten", {"node": i, "value": "the seed"}, {"node": i, "value": repr(broker.get(c))}, perm))
+            def evaluate(comps, in_graph):
+                """One evaluation with a fresh broker; every invariant is judged on its own event log."""
+                nonlocal turns_total
+                del g.log[:]
+                broker = g.make_broker()
+                seeds = dict((i, broker[g.nodes[i]]) for i in range(n) if desc["nodes"][i].get("seed"))
                 try:
-                    broker[c] = "other"
-                    vio.append(("seed:overwrite-refused", "KeyError", "assignment accepted", perm))
-                except KeyError:
-                    pass
+                    dr.run(comps, broker)
+                except Exception as ex:
+                    vio.append(("run:raises", "dr.run returns", repr(ex), perm))
+                    return
+                log = g.log
+                attempts = [ev[1] for ev in log if ev[0] == "attempt"]
+                invokes = [ev[1] for ev in log if ev[0] == "invoke"]
+                turns = [ev[1] for ev in log if ev[0] == "turn"]
+                turns_total += len(turns)
+                orders.add(tuple(turns))
+                for k in range(1, len(turns) + 1):
+                    prefixes.add(tuple(turns[:k]))
+                # (1) at most once
+                for i in range(n):
+                    if attempts.count(i) > 1:
+                        vio.append(("once:attempted-at-most-once", {"node": i, "attempts": "<=1"}, {"node": i, "attempts": attempts.count(i)}, perm))
+                    if invokes.count(i) > 1:
+                        vio.append(("once:invoked-at-most-once", {"node": i, "invocations": "<=1"}, {"node": i, "invocations": invokes.count(i)}, perm))
+                    if i in in_graph and turns.count(i) != 1:
+                        vio.append(("once:one-turn-per-component", {"node": i, "turns": 1}, {"node": i, "turns": turns.count(i)}, perm))
+                    if i not in in_graph and (attempts.count(i) or invokes.count(i)):
+                        vio.append(("closure:foreign-component-run", {"node": i, "attempts": 0}, {"node": i, "attempts": attempts.count(i)}, perm))
+                # (2) every dependency in the evaluation had its turn before the dependent is attempted
+                pos = {}
+                for k, ev in enumerate(log):
+                    if ev[0] == "turn" and ev[1] not in pos:
+                        pos[ev[1]] = k
+                for k, ev in enumerate(log):
+                    if ev[0] == "attempt":
+                        for d in G.all_deps(desc["nodes"][ev[1]]):
+                            if d in in_graph and not (d in pos and pos[d] < k):
+                                vio.append(("order:dependency-attempted-first", {"node": ev[1], "dep": d, "dep_turn_before": True},
+                                            {"log": [list(e[:2]) for e in log if e[0] in ("attempt", "turn")]}, perm))
+                # (3) seeds
+                for i, sv in seeds.items():
+                    c = g.nodes[i]
+                    if invokes.count(i) or attempts.count(i):
+                        vio.append(("seed:not-recomputed", {"node": i, "invocations": 0}, {"node": i, "invocations": invokes.count(i), "attempts": attempts.count(i)}, perm))
+                    if c not in broker or broker[c] is not sv:
+                        vio.append(("seed:not-overwritten", {"node": i, "value": "the seed"}, {"node": i, "value": repr(broker.get(c))}, perm))
+                    try:
+                        broker[c] = "other"
+                        vio.append(("seed:overwrite-refused", "KeyError", "assignment accepted", perm))
+                    except KeyError:
+                        pass
+
+            def registry_intact(when):
+                # an evaluation must not rewrite the declared dependencies of any component (they are shared, global state)
+                for i in range(n):
+                    declared = sorted(G.all_deps(desc["nodes"][i]))
+                    now = sorted(d.idx for d in dr.get_dependencies(g.nodes[i]) if getattr(d, "g", None) is g)
+                    if now != declared:
+                        # not a verdict by itself (the statement is about order and multiplicity): the follow-up
+                        # evaluation of the two-step histories decides; counted so that the evidence shows it
+                        registry_changes.append((i, when))
+                        return False
+                return True
+
+            if tgt[0] == "incr-subdict-then-full":
+                # history: an incremental evaluation of a partial graph, then a full evaluation in the same process
+                try:
+                    list(dr.run_incremental(comps, g.make_broker()))
+                except Exception as ex:
+                    vio.append(("run:raises", "run_incremental returns", repr(ex), perm))
+                registry_intact("incremental evaluation of a partial graph")
+                evaluate(dict((c, set(dr.get_dependencies(c))) for c in g.nodes), set(range(n)))
+            elif tgt[0] == "run-adddep-run":
+                # history: evaluate, register one more (acyclic) dependency through the public dr.add_dependency, evaluate again
+                evaluate(comps, in_graph)
+                i2, j2 = tgt[1], tgt[2]
+                dr.add_dependency(g.nodes[i2], g.nodes[j2])
+                desc2 = {"nodes": [dict(nd) for nd in desc["nodes"]]}
+                d2 = [list(it) if isinstance(it, list) else it for it in desc2["nodes"][i2]["decl"]]
+                for k, it in enumerate(d2):
+                    if isinstance(it, list):
+                        d2[k] = it + [j2]
+                        break
+                desc2["nodes"][i2]["decl"] = d2
+                desc_saved = desc["nodes"]
+                desc["nodes"] = desc2["nodes"]
+                try:
+                    evaluate(dict((c, set(dr.get_dependencies(c))) for c in g.nodes), set(range(n)))
+                finally:
+                    desc["nodes"] = desc_saved
+            else:
+                evaluate(comps, in_graph)
+                registry_intact("evaluation")
         finally:
             g.cleanup()
     if res is not None:
@@ -194,6 +268,8 @@ def check_case(case, res=None):
         res.transitions += turns_total
         res.traces += len(perms)
         res.maxi("max_distinct_engine_orders_for_one_case", len(orders))
+        if registry_changes:
+            res.stat("evaluations_that_changed_the_declared_dependency_registry", len(registry_changes))
     return vio, len(orders)
 
 
@@ -235,6 +311,10 @@ def run_unit(unit, tier):
             nodes = shape_to_nodes(n, shape, devs, t)
             for tgt in tlist:
                 if tgt[0] == "subdict" and sum(1 for d in devs if d != "value") > 1:
+                    continue
+                if tgt[0] in ("incr-subdict-then-full", "run-adddep-run") and any(d != "value" for d in devs):
+                    continue
+                if tgt[0] == "run-adddep-run" and not _can_add_dependency(nodes, tgt[1], tgt[2]):
                     continue
                 case = {"nodes": nodes, "target": tgt, "perm": None}
                 try:
